@@ -711,7 +711,23 @@ func (e *Env) binary(x *EBinary) *CV {
 		}
 		return &CV{K: CBV, T: BVOp(op, a.T, b.T), Signed: sg}
 	}
+	if a.K == CFP && (b.K == CLit || b.K == CInt) {
+		b = &CV{K: CFP, T: fpOfIntCV(b)}
+	}
+	if b.K == CFP && (a.K == CLit || a.K == CInt) {
+		a = &CV{K: CFP, T: fpOfIntCV(a)}
+	}
 	if a.K == CFP && b.K == CFP {
+		switch x.Op {
+		case "+":
+			return &CV{K: CFP, T: FPOp("fp.add RNE", FPS, a.T, b.T)}
+		case "-":
+			return &CV{K: CFP, T: FPOp("fp.sub RNE", FPS, a.T, b.T)}
+		case "*":
+			return &CV{K: CFP, T: FPOp("fp.mul RNE", FPS, a.T, b.T)}
+		case "/":
+			return &CV{K: CFP, T: FPOp("fp.div RNE", FPS, a.T, b.T)}
+		}
 		switch x.Op {
 		case "<":
 			return cvBool(FPOp("fp.lt", BoolS, a.T, b.T))
@@ -784,7 +800,8 @@ func (e *Env) equal(a, b *CV) *Term {
 		}
 		return Eq(a.T, b.T)
 	case CFP:
-		return FPOp("fp.eq", BoolS, a.T, b.T)
+		// contract-level == on floats is identity of the binary64 datum (NaN == NaN, +0 != -0)
+		return Eq(a.T, b.T)
 	case CVal:
 		if b.K != CVal {
 			efail("== between value and scalar")
@@ -898,6 +915,36 @@ func (e *Env) call(x *ECall) *CV {
 		}
 		a.V.Unique = true
 		return cvBool(Ge(a.V.Ref, e.oldNext))
+	case "isnan":
+		return cvBool(FPOp("fp.isNaN", BoolS, arg(0).T))
+	case "isinf":
+		return cvBool(FPOp("fp.isInfinite", BoolS, arg(0).T))
+	case "isneg":
+		return cvBool(FPOp("fp.isNegative", BoolS, arg(0).T))
+	case "fp_abs":
+		return &CV{K: CFP, T: FPOp("fp.abs", FPS, arg(0).T)}
+	case "fp_neg":
+		return &CV{K: CFP, T: FPOp("fp.neg", FPS, arg(0).T)}
+	case "fp_rna":
+		// round to integral, ties away from zero
+		return &CV{K: CFP, T: FPOp("fp.roundToIntegral RNA", FPS, arg(0).T)}
+	case "fp_toint":
+		// conversion of an integral float to a signed 64-bit integer
+		return &CV{K: CBV, T: FPOp("(_ fp.to_sbv 64) RTZ", BVS(64), arg(0).T), Signed: true}
+	case "fp_of":
+		// signed integer -> nearest float (as Go's float64(x))
+		a := arg(0)
+		if a.K == CFP {
+			return a
+		}
+		if a.K == CBV {
+			op := "(_ to_fp_unsigned 11 53) RNE"
+			if a.Signed {
+				op = "(_ to_fp 11 53) RNE"
+			}
+			return &CV{K: CFP, T: FPOp(op, FPS, a.T)}
+		}
+		return &CV{K: CFP, T: fpOfIntCV(a)}
 	case "freshornil":
 		a := arg(0)
 		if a.K != CVal || e.oldNext == nil {
@@ -1004,4 +1051,15 @@ func strRowOf(st *State, s *Val) *Term {
 		}
 	}
 	return st.row("str8", s.Ref)
+}
+
+// fpOfIntCV: an integer (literal or Int term) as a binary64 value, rounded to nearest even.
+func fpOfIntCV(c *CV) *Term {
+	if c.K == CLit {
+		if c.Lit.Sign() < 0 {
+			return FPOp("fp.neg", FPS, FPOp(fmt.Sprintf("(_ to_fp 11 53) RNE %s.0", new(big.Int).Neg(c.Lit).String()), FPS))
+		}
+		return FPOp(fmt.Sprintf("(_ to_fp 11 53) RNE %s.0", c.Lit.String()), FPS)
+	}
+	return FPOp("(_ to_fp 11 53) RNE", FPS, FPOp("to_real", &Sort{K: SInt, str: "Real"}, c.asInt()))
 }
